@@ -581,6 +581,14 @@ func main() {
 	o.strs("registryReportOps", syncOps(findFunc(tally, "scopeRegistry", "Report"), map[string]bool{"report": true, "removeWithRLock": true, "clearMetrics": true, "purgeIfRootClosed": true, "reportInternalMetrics": true}), "(*scopeRegistry).Report")
 	o.strs("registryCachedReportOps", syncOps(findFunc(tally, "scopeRegistry", "CachedReport"), map[string]bool{"cachedReport": true, "removeWithRLock": true, "clearMetrics": true, "purgeIfRootClosed": true, "reportInternalMetrics": true}), "(*scopeRegistry).CachedReport")
 	o.strs("removeWithRLockOps", syncOps(findFunc(tally, "scopeRegistry", "removeWithRLock"), map[string]bool{"delete": true}), "(*scopeRegistry).removeWithRLock")
+	o.strs("scopeGaugeOps", syncOps(findFunc(tally, "scope", "Gauge"), map[string]bool{"gauge": true, "AllocateGauge": true, "newGauge": true}), "(*scope).Gauge")
+	o.strs("scopeTimerOps", syncOps(findFunc(tally, "scope", "Timer"), map[string]bool{"timer": true, "AllocateTimer": true, "newTimer": true}), "(*scope).Timer")
+	o.strs("scopeHistogramOps", syncOps(findFunc(tally, "scope", "Histogram"), map[string]bool{"histogram": true, "AllocateHistogram": true, "newHistogram": true, "Get": true}), "(*scope).Histogram")
+	o.strs("scopeCounterProbeOps", syncOps(findFunc(tally, "scope", "counter"), nil), "(*scope).counter (read-locked probe)")
+	o.strs("registrySubscopeOps", syncOps(findFunc(tally, "scopeRegistry", "Subscope"), map[string]bool{"lockedLookup": true, "removeWithRLock": true, "clearMetrics": true, "report": true, "cachedReport": true, "delete": true}), "(*scopeRegistry).Subscope")
+	o.strs("registryPurgeOps", syncOps(findFunc(tally, "scopeRegistry", "purge"), map[string]bool{"Close": true, "clearMetrics": true, "delete": true}), "(*scopeRegistry).purge")
+	o.strs("removeWithRLockComparisons", comparisons(findFunc(tally, "scopeRegistry", "removeWithRLock")), "comparisons in removeWithRLock (removal by identity)")
+	o.strs("scopeCloseGuards", guards(findFunc(tally, "scope", "Close")), "(*scope).Close guards")
 	o.strs("scopeCounterOps", syncOps(findFunc(tally, "scope", "Counter"), map[string]bool{"counter": true, "AllocateCounter": true, "newCounter": true}), "(*scope).Counter")
 
 	// sanitize.go
